@@ -1,31 +1,36 @@
 --------------------------- MODULE Gen_PathsSpell ---------------------------
-(* Input generator for the C13 cases on folders AS SPELLED (kinds S and Y).  TLC enumerates                     *)
+(* Input generator for the C13 cases on folders AS SPELLED (kinds S and Y).  TLC enumerates, for both separators  *)
+(* and with / without drive letters,                                                                             *)
 (*   - every folder name vp / vr written the way join writes it without its leading separator ("a", "a/A", "aA": *)
-(*     names over NameChars, at most LP / LR characters, names of one character when longer than two),           *)
-(*   - every relative part vq with |vq| <= LQ (any character when |vq| = 1, characters of LongQ when longer),    *)
-(*   - for both separators,                                                                                      *)
+(*     names over NameChars (plus WinNames where drive letters exist), at most LP / LR characters, names of one  *)
+(*     character when longer than two),                                                                          *)
+(*   - every relative part vq with |vq| <= LQ (characters of ShortQ - plus WinQ - when |vq| = 1; when longer,     *)
+(*     the first character also in LongQ and the others in LongQ),                                               *)
 (* and prints, for every spelling number k in Spells (Paths!Spell) that writes the pair of folders differently   *)
-(* from all smaller numbers, one JSON line [sep, F, q, G, k]: F = Spell(join(vp), k), G = Spell(join(vr), k).     *)
+(* from all smaller numbers, one JSON line [sep, win, F, q, G, k]: F = Spell(join(vp), k), G = Spell(join(vr), k).*)
 (* The driver hands F and G to the real helpers exactly as printed.                                              *)
 EXTENDS Paths, Json, TLC
 CONSTANTS NameChars,      \* characters of folder names
-          LongQ,          \* characters of relative parts longer than one character (separators included if wanted)
+          WinNames,       \* further characters of folder names where win is TRUE (':' - drive folders get re-spelled too)
+          WinQ,           \* further characters of one-character relative parts where win is TRUE
+          ShortQ,         \* characters of one-character relative parts
+          LongQ,          \* characters of longer relative parts
           Spells          \* spelling numbers, subset of 0..NSpell
 
 \* a folder name as join writes it (minus the leading separator): no alternate separator, no separator in front, no doubled one
-FolderChars(c) == NameChars \cup {c.sep}
+FolderChars(c) == NameChars \cup {c.sep} \cup (IF c.win THEN WinNames ELSE {})
 GrowOK(c, s) ==
   /\ s[1] # c.sep
   /\ \A i \in 1..(Len(s) - 1) : ~(s[i] = c.sep /\ s[i + 1] = c.sep)
   /\ IF Len(s) <= 2 THEN TRUE ELSE \A i \in 1..(Len(s) - 1) : (IF s[i] = c.sep THEN TRUE ELSE s[i + 1] = c.sep)   \* longer: one-character names
 Whole(c, s) == IF Len(s) = 0 THEN TRUE ELSE s[Len(s)] # c.sep        \* (IF, not \/: inside an action TLC explores both disjuncts)
-QOK(s) == IF Len(s) <= 1 THEN TRUE ELSE \A i \in 1..Len(s) : s[i] \in LongQ
+QOK(c, s) == IF Len(s) <= 1 THEN s[1] \in ShortQ \cup (IF c.win THEN WinQ ELSE {}) ELSE \A i \in 1..Len(s) : s[i] \in LongQ
 
 SpellNext ==
   /\ \/ \E ch \in FolderChars(vc) :
           /\ Len(vq) = 0 /\ Len(vr) = 0 /\ Len(vp) < LP /\ vp' = Append(vp, ch) /\ GrowOK(vc, vp') /\ UNCHANGED <<vq, vr>>
      \/ \E ch \in Alpha(vc, vc2) :
-          /\ Whole(vc, vp) /\ Len(vr) = 0 /\ Len(vq) < LQ /\ vq' = Append(vq, ch) /\ QOK(vq') /\ UNCHANGED <<vp, vr>>
+          /\ Whole(vc, vp) /\ Len(vr) = 0 /\ Len(vq) < LQ /\ vq' = Append(vq, ch) /\ QOK(vc, vq') /\ UNCHANGED <<vp, vr>>
      \/ \E ch \in FolderChars(vc) :
           /\ Whole(vc, vp) /\ Len(vr) < LR /\ vr' = Append(vr, ch) /\ GrowOK(vc, vr') /\ UNCHANGED <<vp, vq>>
   /\ UNCHANGED <<vc, vc2>>
@@ -36,5 +41,5 @@ G(k) == Spell(vc, Join(vc, <<vr>>), k)
 Fresh(k) == \A j \in Spells : j < k => (F(j) # F(k) \/ G(j) # G(k))
 Emit ==
   (Whole(vc, vp) /\ Whole(vc, vr)) =>
-     \A k \in Spells : Fresh(k) => PrintT("@@" \o ToJson(<<vc.sep, F(k), vq, G(k), k>>))
+     \A k \in Spells : Fresh(k) => PrintT("@@" \o ToJson(<<vc.sep, IF vc.win THEN 1 ELSE 0, F(k), vq, G(k), k>>))
 =============================================================================
